@@ -2,10 +2,12 @@
 depth of every line known by construction.  Used by C18 for C++, Java and C (closed-form indentation and invariance under
 re-indentation).  kind: 'stmt' statement start, 'hdr' a compound-statement header line, 'close' a line starting with '}',
 'case' a case label, 'label' a goto label, 'func' function header, 'fclose' function close, 'sclose' the '}' of a switch, 'chdr' / 'cclose' the first and
-last line of the class that wraps a Java program.
+last line of the class that wraps a Java program, 'pp' a block-local #define line (C, C++; not judged itself).
 """
 from hypothesis import strategies as st
 
+PP_LINES = ['#define FLAG%d 1 << 3', '#define LOG%d(v) out << v', '#define M%d (a + 1)', '#define N%d(x) ((x) * 2)', '#define E%d',
+            '#define SH%d(v) v >> 2 , 1']
 SIMPLE = ['a++;', 'b = a + 1;', 'a = g(a, b);', 'b--;', 'a += b * 2;', 'g(a, 3);', 'b = a ? a : b;']
 
 
@@ -14,6 +16,7 @@ class G:
         self.draw, self.lang, self.max_depth, self.allow_switch = draw, lang, max_depth, allow_switch
         self.force_braces = force_braces
         self.labels = False
+        self.pp = False
         self.n = 0
 
     def pick(self, seq):
@@ -28,6 +31,9 @@ class G:
             if self.labels and self.lang in ('C', 'CPP') and not no_block and self.draw(st.integers(0, 11)) == 0:
                 self.n += 1
                 out.append((d, 'label', 'lab%d:' % self.n))       # a goto label in front of a statement of this block
+            if self.pp and self.lang in ('C', 'CPP') and self.draw(st.integers(0, 13)) == 0:
+                self.n += 1                                       # a block-local macro: the line itself is not judged, what follows it is
+                out.append((d, 'pp', self.pick(PP_LINES) % self.n))
             out += self.stmt(d, no_block)
         return out
 
@@ -105,9 +111,10 @@ class G:
 
 
 @st.composite
-def program(draw, lang, max_depth=6, allow_switch=True, force_braces=False, labels=False):
+def program(draw, lang, max_depth=6, allow_switch=True, force_braces=False, labels=False, pp=False):
     g = G(draw, lang, draw(st.integers(2, max_depth)), allow_switch, force_braces)
     g.labels = labels
+    g.pp = pp
     lines = []
     if lang == 'JAVA':
         lines.append((0, 'chdr', 'class A {'))       # (indent_class is false by default: the class body is not indented)
